@@ -7,6 +7,7 @@
 //! trusted: R13: `for x in a..=b` rewritten into an explicit loop over the inclusive range
 //! trusted: R15 (deep slice): update_persisted_channel builds its result from async-move blocks (impl Future, outside the verifier); the unit extracts the body of the block that runs after the consolidating full-monitor write verbatim as an async fn of (monitor_name, latest_update_id, write_status), together with the function-local const LEGACY_CLOSED_CHANNEL_UPDATE_ID; its precondition is the meaning of a successful write: the stored full monitor then is the one just written (stored_latest == its latest_update_id); the decision update-vs-full-monitor and the writes themselves are dropped and not claimed
 //! trusted: R15 (deep slice): maybe_read_channel_monitor_with_updates joins futures and iterator adapters; the unit extracts the filter predicate that selects the updates to replay verbatim; and the statement(s) between collecting the listed names and filtering them (the sort) verbatim as a function of the list; `updates` is an environment type standing for Vec<UpdateName> whose sort / sort_unstable / sort_by_key / sort_unstable_by_key / reverse carry the std contracts (permutation; ordered by Ord / by the key; a key closure `|u| E`, which Verus gives no specification, is rewritten into the closure returning `(E) as i128` with that as its postcondition, so only integer keys of at most 64 bits are understood, anything else is a tool error), and the derived Ord of UpdateName is taken to be the lexicographic order on (id, name) (trusted: #[derive(Ord)] on a tuple struct); reading and applying the updates in iteration order (MultiResultFuturePoller keeps the order of its futures) are dropped and not claimed
+//! trusted: R15 (deep slice): maybe_read_channel_monitor_with_updates: the statement that turns the listing into update names, verbatim as a function of the listing's result; R6: `V.into_iter().map(|name| UpdateName::new(name)).collect()` is the wrapper collect_update_names (all names parse: the names in order; otherwise an error), `R.into_iter().flatten()` on a Result is the wrapper result_into_iter_flatten (std semantics: the Ok value's elements, or none)
 //! trusted: R15 (deep slice): maybe_read_channel_monitor_with_updates: the body of the loop that applies the stored updates, verbatim as a function of one read result and the monitor (update_monitor records the update in a ghost log and succeeds iff the uninterpreted applies_cleanly); R9: the map_err closure gets its parameter type, its log statement is dropped by R3
 //! plemma: C19 call-site precondition of KVStoreSync::remove in the blanket Persist impl's archive_persisted_channel: the live copy of a monitor is deleted only after the very bytes read from it were accepted by the archive namespace
 //! trusted: sync_persist: the three methods of `impl<K: KVStoreSync> Persist for K` are verified as inherent methods of a Store stub whose write reports its result through the uninterpreted write_ok, whose read of the live namespace returns live_value(key), and whose remove carries the archive precondition; ChannelMonitor::encode / MonitorName::to_key uninterpreted; enum ChannelMonitorUpdateStatus extracted; R5: the signer type parameter is dropped
@@ -286,8 +287,42 @@ impl Monitor {
     #[verifier::external_body] pub fn update_monitor(&mut self, update: &Update, broadcaster: &Broadcaster, fee_estimator: &FeeEstimator, logger: &Logger) -> (r: Result<(), ()>)
         ensures final(self).applied@ == old(self).applied@.push(*update), r is Ok == applies_cleanly(*old(self), *update) { unimplemented!() }
 }
+// the names the store listed become the updates to look at: a listing that failed, or a name that is not an update name, fails the read
+pub struct ListedName { pub id: Ghost<Option<u64>> }
+pub struct ParsedName { pub id: u64 }
+impl ParsedName { #[verifier::external_body] pub fn new(name: ListedName) -> (r: Result<ParsedName, IoError>) ensures r is Ok == name.id@ is Some, r matches Ok(p) ==> Some(p.id) == name.id@ { unimplemented!() } }
+pub open spec fn all_parse(names: Seq<ListedName>) -> bool { forall|k: int| 0 <= k < names.len() ==> (#[trigger] names[k]).id@ is Some }
+// R6: `V.into_iter().map(|name| UpdateName::new(name)).collect::<Result<Vec<_>, _>>()`: the parsed names in order, or the first error
+#[verifier::external_body] pub fn collect_update_names(names: Vec<ListedName>) -> (r: Result<Vec<ParsedName>, IoError>)
+    ensures r is Ok == all_parse(names@), r matches Ok(v) ==> v@.len() == names@.len() && forall|k: int| 0 <= k < v@.len() ==> Some((#[trigger] v@[k]).id) == names@[k].id@ { unimplemented!() }
+// R6: `R.into_iter().flatten()` on a Result<Vec<_>, _> (std: Result::into_iter yields the Ok value once or nothing): the elements of the Ok value, none for an Err
+#[verifier::external_body] pub fn result_into_iter_flatten(r: Result<Vec<ListedName>, IoError>) -> (v: Vec<ListedName>)
+    ensures r matches Ok(l) ==> v@ == l@, r is Err ==> v@.len() == 0 { unimplemented!() }
 pub struct Persister { pub broadcaster: Broadcaster, pub fee_estimator: FeeEstimator, pub logger: Logger }
 impl Persister {
+//@extract lightning/src/util/persist.rs :: impl MonitorUpdatingPersisterAsyncInner :: fn maybe_read_channel_monitor_with_updates
+//@slice R15
+    let updates: Result<Vec<_>, _> = $e:seq; let mut updates = updates?;
+//@with
+    fn updates_named_by_the_listing(list_res: Result<Vec<ListedName>, IoError>) -> Result<Vec<ParsedName>, IoError> {
+        let updates: Result<Vec<ParsedName>, IoError> = $e; let updates = updates?; Ok(updates) }
+//@rw R6 ?
+    $x:ident.into_iter().flatten()
+//@with
+    result_into_iter_flatten($x).into_iter()
+//@rw R6
+    = $src:seq.into_iter().map(|name| UpdateName::new(name)).collect()
+//@with
+    = collect_update_names($src)
+//@ret r
+//@ensures P C19 recovery-looks-at-every-update-the-store-lists-and-fails-when-the-listing-fails-or-a-name-is-not-an-update-name
+    list_res is Err ==> r is Err,
+    list_res matches Ok(l) ==> (r is Ok) == all_parse(l@) && (r matches Ok(v) ==> v@.len() == l@.len() && forall|k: int| 0 <= k < v@.len() ==> Some((#[trigger] v@[k]).id) == l@[k].id@),
+//@mutant failed_listing_read_as_no_updates
+    list_res?.into_iter()
+//@with
+    list_res.into_iter().flatten()
+//@end
 //@extract lightning/src/util/persist.rs :: impl MonitorUpdatingPersisterAsyncInner :: fn maybe_read_channel_monitor_with_updates
 //@slice R15
     for (update_name, update_res) in MultiResultFuturePoller::new(update_futures).await { $body:any } Ok(Some((best_block, monitor)))
